@@ -24,6 +24,9 @@ def run(ctx, rep):
     rep.configs.append("default")
     for impl in ("mapper", "cache"):
         BR.check_class_header_arms(fx, rep, "C04.1", impl)
+    import api_rules as AR
+    AR.check_mapping_wiring(fx, rep, "C04.api")
+    AR.check_mapper_constructors(fx, rep, "C04.api")
     LR.check_class_lookup(fx, rep, "C04.2")
     LR.check_remap_method(fx, rep, "C04.3")
     for impl in ("mapper", "cache"):
